@@ -112,13 +112,21 @@ def oracle(case):
     stack = functions.Stack(max_items=case['max_items'],
                             max_item_size=case['max_item_size'])
     cache = {'timestamp': int(env.Clock.now), **dict(case['cache'])}
+    initial = {k: v for k, v in cache.items() if type(k) is str}
     defs, count = {}, 0
     for s in case['scripts']:
         tape = functions.Tape(s, callstack_limit=case['limit'],
                               callstack_count=count, definitions=defs)
         tape.contracts = {}
         tape.plugins = {k: list(v) for k, v in functions._plugins.items()}
-        cache.pop('returned', None)       # control state does not cross scripts
+        # interpreter-owned (str-keyed) state does not cross a script
+        # boundary: only what the embedder supplied is there; scripts
+        # communicate through the stack and byte-keyed entries only
+        for k in [k for k in cache if type(k) is str]:
+            if k in initial:
+                cache[k] = initial[k]
+            else:
+                del cache[k]
         try:
             functions.run_tape(tape, stack, cache)
         except BaseException:
